@@ -23,8 +23,8 @@ convention `(object, name, type_, reflected, compare_to)`:
 namespace Spec.Filter
 open Model.Filter
 
-/-- is `n` the name of an index (resp. of a unique constraint) in the named index/constraint
-name space of the table with key `k` in `l`? -/
+/-- does the name `n` resolve, in the named index/constraint name space of the *metadata* table with
+key `k` in `l` (a dict keyed by name), to an index (resp. a unique constraint)? -/
 def namedIs (l : List Tbl) (k : Key) (n : Option String) (wantIdx : Bool) : Bool :=
   match n with
   | none => false
@@ -32,6 +32,13 @@ def namedIs (l : List Tbl) (k : Key) (n : Option String) (wantIdx : Bool) : Bool
     match (namedConsOf (findTbl l k)).lookup n with
     | some c => c.isIdx == wantIdx
     | none => false
+
+/-- does the reflected table with key `k` in `l` hold an index (resp. a unique constraint) named `n`?
+(a reflected unique constraint and a reflected index may share a name) -/
+def connHas (l : List Tbl) (k : Key) (n : Option String) (wantIdx : Bool) : Bool :=
+  match n with
+  | none => false
+  | some n => (lookupTyped (findTbl l k) wantIdx n).isSome
 
 def fkNamed (l : List Tbl) (k : Key) (n : Option String) : Bool :=
   match n, findTbl l k with
@@ -52,11 +59,11 @@ def targetDescOf (A' B : List Tbl) (o : Op) : ObjDesc :=
   | .addColumn => ⟨o.name, .column, false, false, k.1, k.2⟩
   | .dropColumn => ⟨o.name, .column, true, false, k.1, k.2⟩
   | .alterColumn => ⟨o.name, .column, false, true, k.1, k.2⟩
-  | .createIndex => ⟨o.name, .index, false, namedIs A' k o.name true, k.1, k.2⟩
+  | .createIndex => ⟨o.name, .index, false, connHas A' k o.name true, k.1, k.2⟩
   | .dropIndex =>
     if namedIs B k o.name true then ⟨o.name, .index, false, true, k.1, k.2⟩
     else ⟨o.name, .index, true, false, k.1, k.2⟩
-  | .addUq => ⟨o.name, .uniqueConstraint, false, namedIs A' k o.name false, k.1, k.2⟩
+  | .addUq => ⟨o.name, .uniqueConstraint, false, connHas A' k o.name false, k.1, k.2⟩
   | .dropUq =>
     if namedIs B k o.name false then ⟨o.name, .uniqueConstraint, false, true, k.1, k.2⟩
     else ⟨o.name, .uniqueConstraint, true, false, k.1, k.2⟩
